@@ -265,6 +265,18 @@ End EnsureDir.
 (* write_atomic: path_tmp = filename + '.tmp-' + str(random.randint(0, 99999999)) *)
 Definition tmp_suffix (r : Z) : str := [46; 116; 109; 112; 45] ++ dec_str r.     (* '.tmp-' *)
 
+(* ------------------------------------------------------------------ FileCache._store_single_color_tile: the link text *)
+(* os.path.relpath(path, start) for absolute normalised names given as component lists (outermost first): drop the common
+   leading components, go up once per remaining component of start, then down the rest of path.  (The python function answers
+   '.' when nothing is left; a file is never its own directory, so that case does not occur for the link.) *)
+Fixpoint strip_common (a b : list str) : list str * list str :=
+  match a, b with
+  | x :: a', y :: b' => if str_eqb x y then strip_common a' b' else (a, b)
+  | _, _ => (a, b)
+  end.
+Definition relpath_comps (path start : list str) : list str :=
+  let '(p, s) := strip_common path start in repeat dotdot (List.length s) ++ p.
+
 (* ------------------------------------------------------------------ cache/legend.py: LegendCache.store / load *)
 (* legend.location = os.path.join(self.cache_dir, hash) + '.' + self.file_ext, hash = legend_hash(id, scale) = the md5 hex
    digest of the legend identifier and str(scale) (scale: float or None, see WMSLegendGraphicRequestParams._get_scale) *)
